@@ -879,6 +879,30 @@ def s_opt_map(vm, st, callee, args, dest, ret_bb, m):
     return on_option(vm, st, args[0], lambda s: vm.ret(s, dest, ret_bb, none()), some_)
 
 
+def s_tokens_to_string(vm, st, callee, args, dest, ret_bb, m):
+    """<TokenStream as ToString>::to_string for a stream that consists of one abstract path token (options' serde path)"""
+    ts = deref(vm, st, args[0])
+    items = ts.items if isinstance(ts, Tokens) else ()
+    if len(items) == 1 and items[0][0] == 'opaque' and items[0][1] == 'syn::Path':
+        d = items[0][2]
+        return done(vm, st, dest, ret_bb, StrV(d))
+    raise Unsupported('to_string of a token stream')
+
+
+def s_str_split_whitespace(vm, st, callee, args, dest, ret_bb, m):
+    return concretize_str(vm, st, as_str(vm, st, args[0]), lambda s_, text: vm.ret(s_, dest, ret_bb, IterV(tuple(StrV(x) for x in text.split()))))
+
+
+def s_iter_collect_string(vm, st, callee, args, dest, ret_bb, m):
+    itv, _ = get_iter(vm, st, args[0])
+    if itv.stages:
+        raise Unsupported('collect::<String> behind iterator adapters')
+    parts = [as_str(vm, st, x) for x in itv.items]
+    if all(isinstance(p.s, str) for p in parts):
+        return done(vm, st, dest, ret_bb, StrV(''.join(p.s for p in parts)))
+    return done(vm, st, dest, ret_bb, StrV(z3.Concat(*[p.z() for p in parts])) if len(parts) > 1 else (parts[0] if parts else StrV('')))
+
+
 def s_str_is_empty(vm, st, callee, args, dest, ret_bb, m):
     s_ = as_str(vm, st, args[0])
     if isinstance(s_.s, str):
@@ -1714,6 +1738,9 @@ TABLE = [
     (r'^core::str::<impl str>::split::<char>$', s_str_split_char),
     (r'^core::str::<impl str>::trim$', s_str_trim),
     (r'^core::str::<impl str>::is_empty$', s_str_is_empty),
+    (r'^core::str::<impl str>::split_whitespace$', s_str_split_whitespace),
+    (r'^<(proc_macro2::)?TokenStream as ToString>::to_string$', s_tokens_to_string),
+    (r' as Iterator>::collect::<(std::string::)?String>$', s_iter_collect_string),
     (r'^syn::parse_str::<LitStr>$', s_parse_litstr),
     (r'^LitStr::value$', s_litstr_value),
     (r'^syn::Error::new_spanned::<', s_syn_error),
